@@ -177,5 +177,9 @@ class _Parsing:
     def _parse_program_with_arguments(self) -> _SourceInfoForInterpreterWithArgumentList:
         source_file = self._parse_path()
         arguments = parse_arguments.parser().parse(self._source)
+        if not self._source.is_at_eol__except_for_space:
+            raise ParseException.of_str(
+                'Superfluous arguments: ' + self._source.remaining_part_of_current_line
+            )
         return _SourceInfoForInterpreterWithArgumentList(source_file,
                                                          arguments)
